@@ -344,7 +344,7 @@ def deep_compare(obj1: Any,
                         elif isinstance(value2, Decimal):
                             if value1 != float(value2):
                                 return -1 if value1 < float(value2) else 1
-                        elif not isinstance(value2, (value1.__class__, int)):
+                        elif not isinstance(value2, (float, int)):
                             return -1
                         elif value1 != value2:
                             return -1 if value1 < value2 else 1
@@ -358,7 +358,7 @@ def deep_compare(obj1: Any,
                         elif isinstance(value1, Decimal):
                             if value2 != float(value1):
                                 return -1 if float(value1) < value2 else 1
-                        elif not isinstance(value1, (value2.__class__, int)):
+                        elif not isinstance(value1, (float, int)):
                             return -1
                         elif value1 != value2:
                             return -1 if value1 < value2 else 1
